@@ -3,6 +3,7 @@ package main
 import (
 	"context"
 	"fmt"
+	"io"
 	"math/rand"
 	"net"
 	"net/http"
@@ -45,19 +46,19 @@ type hback struct {
 	path    string
 	timeout time.Duration
 
-	mu     sync.Mutex
-	plan   []byte // outcome per probe; beyond the plan: steady
-	codes  []int
-	steady byte
-	probes []probeObs
-	trans  []trans
-	cur    int // index of the probe in flight (or the next one)
+	mu       sync.Mutex
+	plan     []byte // outcome per probe; beyond the plan: steady
+	codes    []int
+	steady   byte
+	probes   []probeObs
+	trans    []trans
+	cur      int // index of the probe in flight (or the next one)
 	inflight bool
-	port   int
-	sw     *portSwitch
-	srv    *http.Server
-	open   bool
-	broken string // harness trouble (listener could not be reopened ...): the case is inconclusive
+	port     int
+	sw       *portSwitch
+	srv      *http.Server
+	open     bool
+	broken   string // harness trouble (listener could not be reopened ...): the case is inconclusive
 
 	onStart func(k int) // called (outside mu) when probe k is about to be sent
 	served  atomic.Int64
@@ -572,8 +573,13 @@ type tcpTarget struct {
 	sw      *portSwitch
 	isOpen  bool
 	accepts atomic.Int64
-	handler func(net.Conn) // nil: close at once
+	// accept instant of the newest connection that the peer closed in an orderly way
+	lastClean atomic.Int64
+	handler   func(net.Conn) // nil: wait for the peer's close
 }
+
+// successSince reports whether a probe that connected at or after instant t (harness clock) succeeded.
+func (t *tcpTarget) successSince(ts int64) bool { return t.lastClean.Load() >= ts }
 
 func (t *tcpTarget) open() error {
 	t.mu.Lock()
@@ -599,9 +605,24 @@ func (t *tcpTarget) open() error {
 			t.accepts.Add(1)
 			if t.handler != nil {
 				go t.handler(cn)
-			} else {
-				cn.Close()
+				continue
 			}
+			at := h.Now()
+			go func() {
+				// a probe that connected in time closes its connection at once: end of stream. A connect
+				// that was given up (timeout) while its SYN was still being retransmitted ends in a reset.
+				_ = cn.SetReadDeadline(time.Now().Add(5 * time.Second))
+				_, err := cn.Read(make([]byte, 1))
+				cn.Close()
+				if err == io.EOF {
+					for {
+						old := t.lastClean.Load()
+						if at <= old || t.lastClean.CompareAndSwap(old, at) {
+							break
+						}
+					}
+				}
+			}()
 		}
 	}()
 	return nil
@@ -712,9 +733,16 @@ func healthTCPCase(c *h.Case) {
 	}
 	// short windows: fewer than maxFailed probes fit into each, a success separates them
 	stretched := false
+	// In timeout mode a connect that started inside a window is retried by the kernel after 1 s and may be
+	// accepted after the reopening although the probe has given up: only connections accepted 1.5 s or more
+	// after the reopening, and closed in an orderly way, prove a successful probe.
+	margin := int64(0)
+	if hole {
+		margin = int64(1500 * time.Millisecond)
+	}
+	ref := h.Now()
 	for w := 0; w < nShort; w++ {
-		a0 := tg.accepts.Load()
-		if !h.Eventually(grace, func() bool { return tg.accepts.Load() > a0 }) { // a success since the last window
+		if !h.Eventually(grace, func() bool { return tg.successSince(ref) }) { // a success since the last window
 			run.Inconclusive("tcp target saw no probe")
 			return
 		}
@@ -727,6 +755,7 @@ func healthTCPCase(c *h.Case) {
 		if !reopen() {
 			return
 		}
+		ref = h.Now() + margin
 		measured := time.Duration(h.Now() - t0)
 		if int(measured/iv)+1 >= maxFailed {
 			stretched = true // the window got long enough to hold maxFailed probes: a withdrawal would be legal
@@ -736,8 +765,11 @@ func healthTCPCase(c *h.Case) {
 		run.Count("tcp_short_windows", 1)
 	}
 	if nShort > 0 {
-		a0 := tg.accepts.Load()
-		h.Eventually(grace, func() bool { return tg.accepts.Load() > a0 })
+		seen := h.Eventually(grace, func() bool { return tg.successSince(ref) || len(get()) != 1 })
+		if !seen {
+			run.Inconclusive("tcp target saw no probe")
+			return
+		}
 		if n := len(get()); n != 1 && !stretched {
 			c.Data["callbacks"] = get()
 			c.Violation("health-down-without-max-consecutive-failures", "tcp monitor (maxFailed %d): %d closed windows, each too short for %d probes and separated by successful probes, yet callbacks %+v", maxFailed, nShort, maxFailed, get()[1:])
